@@ -22,7 +22,7 @@ CLAIMED = {
          "Deviation bound; <=4 callers; RegionActionResult order equals request order (as HBase does).", "DESIGN.md §4 C02"),
  "C10": ("exploration",
          "exhaustive small-scope enumeration of field-length boundaries x mutation kinds x map shapes; two decoders and a set comparison of both encodings",
-         "Every combination of row/family/qualifier/value length boundaries, 6 timestamps incl. the latest sentinel, 5 mutation kinds and 11 value-map shapes (nil/empty inner and outer maps, two families in both orders) is encoded by the client as cellblock and as protobuf; the cellblock is decoded by the client's own reader and by an independent KeyValue reader (identical fields, exact byte consumption, declared count), and the cells denoted by the protobuf form are compared as a set with the cellblock form and with the requested cells.",
+         "Every combination of row/family/qualifier/value length boundaries, 6 timestamps incl. the latest sentinel, 5 mutation kinds and 11 value-map shapes (nil/empty inner and outer maps, two families in both orders) is encoded by the client as cellblock and as protobuf; the cellblock is decoded by the client's own reader and by an independent KeyValue reader (identical fields, exact byte consumption, declared count), and the cells denoted by the protobuf form are compared as a set with the cellblock form and with the requested cells. The whole enumeration is decided a second time in a worker built for GOARCH=386 (int has 32 bits).",
          "Lengths only at the listed boundary values; protobuf-form semantics per HBase ProtobufUtil.", "DESIGN.md §4 C10"),
  "C06": ("model_checking",
          "exhaustive enumeration of every server chunking (environment choices under the controlled runtime) x small tables / layouts / ranges / directions; real scanner vs sorted range-filtered model",
@@ -34,11 +34,11 @@ CLAIMED = {
          "As C06.", "DESIGN.md §4 C14"),
  "C11": ("fault_enumeration",
          "bounded exhaustive malformed-input enumeration into the decoders and through the real reader goroutine under the controlled scheduler; allocation-driving inputs in a memory-limited sub-process",
-         "Part A: all byte strings of length <=2 (thorough <=3), all strings <=6 (8) over six boundary bytes, and the 10x10x10x8x6 boundary product of the five KeyValue length fields (on exact, short and two-cell buffers whose capacity equals their length) into the cellblock reader; every prefix and byte corruption of a region-info value into the meta-row parser. Part B: for outstanding get / mutate / scan / multi calls, ~50 structure-aware mutations each (call id, exception parts, delimiters, cellblock length, cell counts, scan arrays, multi indices / duplicates / region-result counts / nameless exceptions, frame length), every truncation and 5 values at every byte of the valid frame, damaged compressed cellblocks, all delivered by a simulated server to the real reader goroutine. Oracle: no panic in any thread, no caller stranded, reader not blocked, later calls served or refused.",
-         "The 4-byte frame length is trusted up to 1 MiB (framing-inherent allocation not judged); default thread schedule in part B; pairs of mutations only in the thorough tier.", "DESIGN.md §4 C11"),
+         "Part A: all byte strings of length <=2 (thorough <=3), all strings <=6 (8) over six boundary bytes, and the 10x10x10x8x6 boundary product of the five KeyValue length fields (on exact, short and two-cell buffers whose capacity equals their length) into the cellblock reader; every prefix and byte corruption of a region-info value into the meta-row parser; frame length prefixes of 2^31 and more into the real receive function; all byte strings <=7 (9) over five boundary bytes, and a valid two-block stream with boundary values at every byte of its length headers (singly and in pairs) and every truncation, into the cellblock decompressor. Part A is decided a second time in a worker built for GOARCH=386, where the uint32 lengths of the wire exceed int. Part B: for outstanding get / mutate / scan / multi calls, ~50 structure-aware mutations each (call id, exception parts, delimiters, cellblock length, cell counts, scan arrays, multi indices / duplicates / region-result counts / nameless exceptions, frame length), every truncation and 5 values at every byte of the valid frame, damaged compressed cellblocks, all delivered by a simulated server to the real reader goroutine. Oracle: no panic in any thread, no caller stranded, reader not blocked, later calls served or refused.",
+         "The 4-byte frame length is trusted between 1 MiB and 2^31 (framing-inherent allocation not judged); the GOARCH=386 pass covers part A only; default thread schedule in part B; pairs of mutations only in the thorough tier.", "DESIGN.md §4 C11"),
  "C15": ("exploration",
          "exhaustive small-size + chunk-boundary enumeration of payloads, buffer splits, block/chunk compositions, truncations and byte flips against an independent Hadoop block-stream reader and snappy decoder",
-         "Client compress -> independent reader = input = client decompress for sizes 0..64 and around 1-3 chunks (218421 B) x 3 content classes x every buffer split; conforming server streams from an independent writer in every composition of <=3 blocks x 1..3 chunks; every truncation and byte substitution of small streams must give an error or exactly what the independent reader returns (raw snappy has no checksum). Streams that declare huge lengths run in a 1 GiB sub-process. Every size 65..9000 (thorough 70000) x {compressible, incompressible} x state of the client's buffer pool {cold, warm, holding only a tiny buffer} is round-tripped as well, each in its own controlled execution with a deterministic pool.",
+         "Client compress -> independent reader = input = client decompress for sizes 0..64 and around 1-3 chunks (218421 B) x 3 content classes x every buffer split; conforming server streams from an independent writer in every composition of <=3 blocks x 1..3 chunks; every truncation and byte substitution of small streams must give an error or exactly what the independent reader returns (raw snappy has no checksum). Streams that declare huge lengths run in a 1 GiB sub-process. Every size 65..9000 (thorough 70000) x {compressible, incompressible} x state of the client's buffer pool {cold, warm, holding only a tiny buffer} is round-tripped as well, each in its own controlled execution with a deterministic pool; incompressible streams of 32 MiB and 64 MiB (64 x their length passes 2^31 / 2^32). All of it is decided a second time in a worker built for GOARCH=386.",
          "Differential oracle for corruption; golang/snappy is the client's codec, the check uses its own decoder.", "DESIGN.md §4 C15"),
  "C04": ("model_checking",
          "stateless model checking of the real top-level client over a simulated cluster: bounded fault scripts x cache state x event position x schedules up to a deviation bound; the cluster executor is the server-side observer",
@@ -70,11 +70,11 @@ CLAIMED = {
          "Tier L for the top-level client (simulated region clients model the repaired real one; the real one is checked on tier R).", "DESIGN.md §4 C19"),
  "C20": ("model_checking",
          "stateless model checking of the connection cache under concurrent first use: regions x callers x all schedules with <=2 deviations; dial and open-connection counters",
-         "2-4 regions on one address first used by as many (or one more) concurrent callers from a cold cache, optionally followed by a later discovery on the same server or by a connection reset and a second burst. Oracle: one dial per connection generation, never two connections open to one address, all requests succeed.",
-         "Tier L.", "DESIGN.md §4 C20"),
+         "2-4 regions on one address first used by as many (or one more) concurrent callers from a cold cache, optionally followed by a later discovery on the same server, by a split / merge of a server's only regions, or by a connection reset and a second burst. Tier W (real region clients, a dialer that fails like net.Dialer when its context ends): 2-3 regions first used concurrently; CacheRegions after splits / merges; and two regions first used by three callers while the first region splits server-side at every scheduling step of the run (an interrupt) plus <=1 (thorough 2) deviations - dial starts are counted. Oracle: one dial per connection generation, never two connections open to one address, all requests succeed.",
+         "Tiers L and W.", "DESIGN.md §4 C20"),
  "C05": ("model_checking",
          "call shapes and multi groupings through the real region client into an independent wire decoder; concurrent senders on a non-TCP connection under all schedules with <=2 deviations",
-         "Every call shape (mutation kinds x value maps x timestamps x durabilities x TTL, check-and-put, gets and scans with their options singly and in pairs, scanner continue/close/renew) and every multi-request grouping of 1-4 calls over two regions (plus sequences over three) is sent by the real region client, plain and snappy-compressed, over a simulated connection; an independent decoder checks preamble, connection header, frame length, unique call ids, method, priority, cellblock length, cell counts and compares the decoded operation field by field with what the caller built. 2-3 concurrent senders on a net.Conn whose gather write is several Writes are explored over all schedules with <=2 deviations: the stream must parse into exactly the issued frames.",
+         "Every call shape (mutation kinds x value maps x timestamps x durabilities x TTL, check-and-put, gets and scans with their options singly and in pairs, scanner continue/close/renew; mutations with rows of 255..65539 bytes x families of 1..258 bytes - around the widths of the KeyValue length fields - which must be on the wire as built or be refused when built) and every multi-request grouping of 1-4 calls over two regions (plus sequences over three) is sent by the real region client, plain and snappy-compressed, over a simulated connection; an independent decoder checks preamble, connection header, frame length, unique call ids, method, priority, cellblock length, cell counts and compares the decoded operation field by field with what the caller built. 2-3 concurrent senders on a net.Conn whose gather write is several Writes are explored over all schedules with <=2 deviations: the stream must parse into exactly the issued frames.",
          "Kernel-TCP writev atomicity is trusted (not modelled); map iteration order inside the client is fixed by the instrumentation, family orders are varied by the inputs.", "DESIGN.md §4 C05"),
  "C08": ("model_checking",
          "explicit-state breadth-first search over the real location cache, every transition executed on the implementation and judged against an interval model",
